@@ -131,21 +131,25 @@ class C17(Prop):
         if len(hosts) < 2 or not sts[0][2:-1].isalpha():
             return False
         members = [bytes(x) for x in lru_variations(site)]
-        seen = None
-        for m in members:
-            c = Case(self, ctx, Config(backend="memory", default_rule="subdomain"), None)
-            try:
-                out = c.idx.apply(("page", m + b"p:first|", False))
-                if out.status != "ok":
-                    self._fail(ctx, case, "index-exception", "add_page under %r: %r" % (m, out.exc), lru, "class-on-index")
-                sets = sorted(sorted(ps) for ps in out.created.values())
-            finally:
-                c.abort()
-            if seen is None:
-                seen = (m, sets)
-            elif sets != seen[1]:
-                self._fail(ctx, case, "class-on-index", "site %r: first page under %r creates %r, first page under %r creates %r"
-                           % (site, seen[0], seen[1], m, sets), lru, "class-on-index")
+        # once through the default rule, once through a rule anchored on the scheme stem of every member
+        anchored = {stems_of(m)[0]: "subdomain" for m in members}
+        for cfg in (Config(backend="memory", default_rule="subdomain"),
+                    Config(backend="memory", default_rule="domain", rules=anchored)):
+            seen = None
+            for m in members:
+                c = Case(self, ctx, cfg.copy(), None)
+                try:
+                    out = c.idx.apply(("page", m + b"p:first|", False))
+                    if out.status != "ok":
+                        self._fail(ctx, case, "index-exception", "add_page under %r: %r" % (m, out.exc), lru, "class-on-index")
+                    sets = sorted(sorted(ps) for ps in out.created.values())
+                finally:
+                    c.abort()
+                if seen is None:
+                    seen = (m, sets)
+                elif sets != seen[1]:
+                    self._fail(ctx, case, "class-on-index", "site %r (%s): first page under %r creates %r, first page under %r creates %r"
+                               % (site, "anchored rule" if cfg.rules else "default rule", seen[0], seen[1], m, sets), lru, "class-on-index")
         return True
 
     def extra_checks(self, ctx, tier, seed, shard, nshards):
